@@ -431,7 +431,12 @@ class TDMProgram(Program):
 
         if self.space_unrolled_circuit is not None:
             if self._num_added_subsystems > 0:
-                self._delete_subsystems(self.register[-self._num_added_subsystems :])
+                # remove the register references that were added when space-unrolling (only the
+                # space-unrolled circuit uses them); merely deactivating them would make the next
+                # space-unrolling address modes beyond `init_num_subsystems`
+                for r in self.register[-self._num_added_subsystems :]:
+                    del self.reg_refs[r.ind]
+                    self.unused_indices.discard(r.ind)
                 self.init_num_subsystems -= self._num_added_subsystems
                 self._num_added_subsystems = 0
 
